@@ -116,14 +116,20 @@ DRUnlock(g) == /\ pc[g] = "d.done" /\ rw' = [rw EXCEPT !.r = @ - 1]
                /\ UNCHANGED <<limit, children, parent, eacc, ealias, cur>> /\ Ghost({})
 
 \* ---- Extend (mime.go:174-192): node built outside the lock, published under mu.Lock
-NextExt == LET un == {i \in 1..Len(Exts) : parent[Exts[i]] = "none" /\ \A h \in Procs : ~(pc[h] \in {"e.locked", "e.pub"} /\ cur[h].e = Exts[i])} IN
+NextExt == LET un == {i \in 1..Len(Exts) : parent[Exts[i]] = "none" /\ \A h \in Procs : ~(pc[h] \in {"e.built", "e.locked", "e.pub"} /\ cur[h].e = Exts[i])} IN
            IF un = {} THEN "none" ELSE Exts[CHOOSE i \in un : \A j \in un : i <= j]
-ELock(g, p, a, al) == /\ Idle(g) /\ NextExt # "none" /\ Attached(p)
-                      /\ ~rw.w /\ rw.r = 0 /\ rw' = [rw EXCEPT !.w = TRUE]
-                      /\ cur' = [cur EXCEPT ![g] = [e |-> NextExt, p |-> p, a |-> a, al |-> al]]
-                      /\ pc' = [pc EXCEPT ![g] = "e.locked"]
-                      /\ H([g |-> g, a |-> "ELock", e |-> NextExt, p |-> p, acc |-> a, al |-> al])
-                      /\ UNCHANGED <<limit, children, parent, eacc, ealias, ops, done>> /\ Ghost({g})
+\* the node is built without any lock (nothing shared is read or written) ...
+EBuild(g, p, a, al) == /\ Idle(g) /\ NextExt # "none" /\ Attached(p)
+                       /\ cur' = [cur EXCEPT ![g] = [e |-> NextExt, p |-> p, a |-> a, al |-> al]]
+                       /\ pc' = [pc EXCEPT ![g] = "e.built"]
+                       /\ H([g |-> g, a |-> "EBuild", e |-> NextExt, p |-> p, acc |-> a, al |-> al])
+                       /\ UNCHANGED <<limit, children, parent, eacc, ealias, rw, ops, done>> /\ Ghost({g})
+\* ... then the write lock is taken; the children are read and replaced under it
+ELock(g) == /\ pc[g] = "e.built"
+            /\ ~rw.w /\ rw.r = 0 /\ rw' = [rw EXCEPT !.w = TRUE]
+            /\ pc' = [pc EXCEPT ![g] = "e.locked"]
+            /\ H([g |-> g, a |-> "ELock"])
+            /\ UNCHANGED <<limit, children, parent, eacc, ealias, cur, ops, done>> /\ Ghost({})
 EPub(g) == /\ pc[g] = "e.locked"
            /\ children' = [children EXCEPT ![cur[g].p] = <<cur[g].e>> \o @]
            /\ parent' = [parent EXCEPT ![cur[g].e] = cur[g].p]
@@ -158,12 +164,12 @@ Next == \E g \in Procs :
           \/ \E v \in LimitMenu : SStore(g, v)
           \/ \E x \in Inputs : DLoad(g, x)
           \/ DRLock(g) \/ DWalk(g) \/ DRUnlock(g)
-          \/ \E p \in Nodes, a \in AccMenu, al \in AliasMenu : ELock(g, p, a, al)
-          \/ EPub(g) \/ EUnlock(g)
+          \/ \E p \in Nodes, a \in AccMenu, al \in AliasMenu : EBuild(g, p, a, al)
+          \/ ELock(g) \/ EPub(g) \/ EUnlock(g)
           \/ \E nm \in LookupNames : LRLock(g, nm)
           \/ LSearch(g) \/ LRUnlock(g)
 Spec == Init /\ [][Next]_vars
-FairSpec == Spec /\ \A g \in Procs : WF_vars(DRLock(g) \/ DWalk(g) \/ DRUnlock(g) \/ EPub(g) \/ EUnlock(g) \/ LSearch(g) \/ LRUnlock(g))
+FairSpec == Spec /\ \A g \in Procs : WF_vars(DRLock(g) \/ DWalk(g) \/ DRUnlock(g) \/ ELock(g) \/ EPub(g) \/ EUnlock(g) \/ LSearch(g) \/ LRUnlock(g))
 
 (* ------------------------------- properties ------------------------------- *)
 \* C06: lock discipline
